@@ -126,3 +126,93 @@ Proof.
   | context [match ?x with _ => _ end] => destruct x
   end; try discriminate; now injection H.
 Qed.
+
+(* ---------- every reserved byte is released exactly once: TorData for what was stored, TorDrop
+   for the rest on Close ---------- *)
+
+Definition rel_range (e : wev) : list (N * N) :=
+  match e with WData o n => [(o, n)] | WDrop o n => [(o, n)] | WStore _ _ => [] end.
+Definition released (evs : list wev) : list (N * N) := flat_map rel_range evs.
+
+(* consecutive ranges starting at [start] *)
+Fixpoint chained (start : N) (l : list (N * N)) : Prop :=
+  match l with
+  | [] => True
+  | (o, n) :: r => o = start /\ chained (start + n) r
+  end.
+Fixpoint total_rel (l : list (N * N)) : N := match l with [] => 0 | (_, n) :: r => n + total_rel r end.
+
+Lemma chained_app l1 : forall start l2,
+  chained start l1 -> chained (start + total_rel l1) l2 -> chained start (l1 ++ l2).
+Proof.
+  induction l1 as [|[o n] r IH]; intros start l2 H1 H2; cbn [app chained total_rel] in *.
+  - now rewrite N.add_0_r in H2.
+  - destruct H1 as [-> H1]. split; [reflexivity|]. apply IH; [exact H1|]. now rewrite N.add_assoc in H2.
+Qed.
+Lemma total_rel_app l1 l2 : total_rel (l1 ++ l2) = total_rel l1 + total_rel l2.
+Proof. induction l1 as [|[o n] r IH]; cbn [app total_rel]; [reflexivity|]. rewrite IH. lia. Qed.
+
+(* a writer in a sound state: open, and never buffering more than remains *)
+Definition w_ok (s : wstate) : Prop := w_closed s = false /\ len (w_buf s) <= w_count s.
+
+Lemma w_Write_releases pl s p s' n evs err :
+  w_ok s -> w_Write pl s p = (s', n, evs, err) ->
+  w_ok s' /\ chained (w_off s) (released evs) /\
+  w_off s' = w_off s + total_rel (released evs) /\ w_count s' + total_rel (released evs) = w_count s.
+Proof.
+  intros [Hc Hb]. unfold w_Write. rewrite Hc.
+  destruct (w_count s <? len (w_buf s)) eqn:B; [lia|].
+  set (q := firstn _ p). set (data := w_buf s ++ q).
+  destruct (w_write pl s data) as [[[s1 m] e1] er1] eqn:W.
+  assert (Hd : len data <= w_count s).
+  { subst data q. rewrite len_app. unfold len at 2. rewrite firstn_length. lia. }
+  pose proof W as W'. apply w_write_spec in W' as (Hm & Ho & Hcnt & _).
+  unfold w_write in W. destruct (add_data pl (w_off s) (len data)) as [count e].
+  intros [= <- <- <- <-]. cbn [w_off w_count w_buf w_closed].
+  destruct (0 <? count) eqn:C; injection W as <- <- <- <-; cbn [w_off w_count w_buf w_closed released flat_map rel_range app chained total_rel] in *.
+  - split; [unfold w_ok; cbn [w_closed w_buf w_count]; split; [reflexivity|unfold len in *; rewrite skipn_length; lia]|].
+    split; [split; [reflexivity|exact I]|]. split; lia.
+  - split; [unfold w_ok; cbn [w_closed w_buf w_count]; split; [reflexivity|unfold len in *; rewrite skipn_length; lia]|].
+    split; [exact I|]. split; lia.
+Qed.
+
+Fixpoint w_run (pl : N) (s : wstate) (ws : list bytes) : wstate * list wev :=
+  match ws with
+  | [] => (s, [])
+  | p :: r => let '(s1, _, evs, _) := w_Write pl s p in
+              let (s2, evs2) := w_run pl s1 r in (s2, evs ++ evs2)
+  end.
+
+Lemma w_run_releases pl : forall ws s,
+  w_ok s ->
+  let (s', evs) := w_run pl s ws in
+  w_ok s' /\ chained (w_off s) (released evs) /\
+  w_off s' = w_off s + total_rel (released evs) /\ w_count s' + total_rel (released evs) = w_count s.
+Proof.
+  induction ws as [|p r IH]; intros s Hs; cbn [w_run].
+  - cbn [released flat_map chained total_rel]. repeat split; try apply Hs; lia.
+  - destruct (w_Write pl s p) as [[[s1 n] evs] err] eqn:W.
+    destruct (w_Write_releases pl s p s1 n evs err Hs W) as (Hs1 & Hch & Hoff & Hcnt).
+    specialize (IH s1 Hs1). destruct (w_run pl s1 r) as [s2 evs2]. destruct IH as (Hs2 & Hch2 & Hoff2 & Hcnt2).
+    unfold released in *. rewrite flat_map_app. fold (released evs) (released evs2) in *.
+    split; [exact Hs2|]. split; [|rewrite total_rel_app; split; lia].
+    apply chained_app; [exact Hch|]. now rewrite <- Hoff.
+Qed.
+
+(* Any sequence of Writes (any sizes, any outcome of AddData) followed by Close releases exactly
+   the range that was reserved: consecutive ranges from the initial offset, of total length the
+   initial count. *)
+Theorem writer_releases_all pl s ws :
+  w_ok s ->
+  let (s1, evs) := w_run pl s ws in
+  let (s2, cl) := w_Close s1 in
+  chained (w_off s) (released (evs ++ cl)) /\ total_rel (released (evs ++ cl)) = w_count s /\ w_count s2 = 0.
+Proof.
+  intros Hs. pose proof (w_run_releases pl ws s Hs) as H. destruct (w_run pl s ws) as [s1 evs].
+  destruct H as ((Hc1 & Hb1) & Hch & Hoff & Hcnt). unfold w_Close. rewrite Hc1.
+  unfold released. rewrite flat_map_app. fold (released evs).
+  destruct (0 <? w_count s1) eqn:C; cbn [flat_map rel_range app w_count].
+  - split; [|split; [rewrite total_rel_app; cbn [total_rel]; lia|reflexivity]].
+    apply chained_app; [exact Hch|]. cbn [chained]. split; [lia|exact I].
+  - rewrite app_nil_r. split; [exact Hch|]. split; [lia|reflexivity].
+Qed.
